@@ -11,6 +11,9 @@ than on resolved program structure.
                  parentheses normalised, line numbers changed)
   rename-locals  every local variable of every function (not parameters,
                  not globals, not names bound by import) gets a suffix
+  opaque-locals  the same locals get meaningless names (x1_, x2_, ...)
+  kw-reverse     keyword arguments of every call in reverse order
+  flip-compare   a < b -> b > a, a == b -> b == a (single comparisons)
   aug-assign     x += e  ->  x = x + e   for plain local names
   negate-if      if c: A else: B  ->  if not c: B else: A   (two-armed ifs
                  without elif)
@@ -91,10 +94,14 @@ class _Renamer(ast.NodeTransformer):
     def __init__(self, names, suffix):
         self.names = names
         self.suffix = suffix
+        # suffix None: opaque names (x1_, x2_, ...) that keep nothing of
+        # the original spelling
+        self.map = {nm: f'x{i + 1}_' for i, nm in enumerate(sorted(names))}
 
     def visit_Name(self, n):
         if n.id in self.names:
-            n.id = n.id + self.suffix
+            n.id = (n.id + self.suffix) if self.suffix is not None \
+                else self.map[n.id]
         return n
 
 
@@ -186,9 +193,49 @@ def t_reformat(tree):
     return tree
 
 
+class _KwRev(ast.NodeTransformer):
+    def visit_Call(self, n):
+        self.generic_visit(n)
+        if len(n.keywords) > 1 and all(k.arg for k in n.keywords):
+            n.keywords = list(reversed(n.keywords))
+        return n
+
+
+def t_kw_reverse(tree):
+    return _KwRev().visit(tree)
+
+
+_FLIP = {ast.Lt: ast.Gt, ast.Gt: ast.Lt, ast.LtE: ast.GtE, ast.GtE: ast.LtE,
+         ast.Eq: ast.Eq, ast.NotEq: ast.NotEq}
+
+
+class _Flip(ast.NodeTransformer):
+    def visit_Compare(self, n):
+        self.generic_visit(n)
+        if len(n.ops) == 1 and type(n.ops[0]) in _FLIP:
+            l, r = n.left, n.comparators[0]
+            # numpy arrays compare element-wise either way round; keep
+            # constants on the right of `==` so that `x == None`-style
+            # idioms are not produced the other way round
+            n.left, n.comparators = r, [l]
+            n.ops = [_FLIP[type(n.ops[0])]()]
+        return n
+
+
+def t_flip_compare(tree):
+    return _Flip().visit(tree)
+
+
+def t_opaque_locals(tree):
+    return t_rename_locals(tree, suffix=None)
+
+
 TRANSFORMS = {
     'reformat': t_reformat,
     'rename-locals': t_rename_locals,
+    'opaque-locals': t_opaque_locals,
+    'kw-reverse': t_kw_reverse,
+    'flip-compare': t_flip_compare,
     'aug-assign': t_aug_assign,
     'negate-if': t_negate_if,
     'pad': t_pad,
